@@ -418,9 +418,8 @@ func c14Spaces(c *fw.Ctx) {
 		{{{"handle1", "a.example."}}, {{"handle2", "A.EXAMPLE."}}, {{"serve", "x.a.example."}, {"serve", "x.a.example."}}},
 		{{{"remove", "a.example."}, {"handle1", "a.example."}}, {{"remove", "a.example."}, {"handle2", "a.example."}}, {{"serve", "a.example."}}},
 	}
-	for pi, prog := range progs {
-		prog := prog
-		sc := &e2x.Scenario{Name: fmt.Sprintf("e2/mux/program-%d", pi), New: func() (func(), func(*vsched.Exec) (string, map[string]string)) {
+	mkMux := func(name string, prog [][]op) *e2x.Scenario {
+		return &e2x.Scenario{Name: name, New: func() (func(), func(*vsched.Exec) (string, map[string]string)) {
 			mux := dns.NewServeMux()
 			type ev struct {
 				call, ret int
@@ -552,8 +551,87 @@ func c14Spaces(c *fw.Ctx) {
 			}
 			return body, check
 		}}
+	}
+	for pi, prog := range progs {
+		sc := mkMux(fmt.Sprintf("e2/mux/program-%d", pi), prog)
 		exploreSpace(c, "C14", sc, 100, 3000000, "3 threads × ≤2 operations {Handle(h1|h2), HandleRemove, ServeDNS} on one ServeMux with colliding patterns (program "+fmt.Sprint(pi)+"); unbounded preemptions")
 	}
+
+	// every program over a 6-operation alphabet (not only the four above): one case per program, its whole
+	// schedule tree explored inside the case
+	alpha := []op{{"handle1", "a.example."}, {"handle2", "A.EXAMPLE."}, {"remove", "a.example."}, {"serve", "x.a.example."}, {"handle1", "example."}, {"serve", "b.example."}}
+	shapes := [][]int{{2, 2}, {1, 1, 1}}
+	shapeDesc := "2 threads × 2 operations and 3 threads × 1 operation"
+	if c.Thorough {
+		shapes = append(shapes, []int{2, 2, 1})
+		shapeDesc += " and 3 threads × (2, 2, 1) operations"
+	}
+	c.Space("e2/mux/all-programs", "every program of "+shapeDesc+" over {Handle(h1, a.example.), Handle(h2, A.EXAMPLE.), HandleRemove(a.example.), ServeDNS(x.a.example.), Handle(h1, example.), ServeDNS(b.example.)} on one ServeMux that already routes a.example. (threads of equal length up to permutation): every interleaving (no preemption bound) of the real code, every history checked for linearizability against a map by brute force; one case per program; non-trivial: the program contains a ServeDNS and a write", true,
+		func(emit func(func(*fw.R))) {
+			var gen func(shape []int, ti int, prog [][]op)
+			gen = func(shape []int, ti int, prog [][]op) {
+				if ti == len(shape) {
+					p := make([][]op, len(prog))
+					for i := range prog {
+						p[i] = append([]op(nil), prog[i]...)
+					}
+					emit(func(r *fw.R) {
+						serve, write := false, false
+						name := ""
+						for _, t := range p {
+							name += "|"
+							for _, o := range t {
+								name += " " + o.kind + "(" + o.pat + ")"
+								if o.kind == "serve" {
+									serve = true
+								} else {
+									write = true
+								}
+							}
+						}
+						sc := mkMux("e2/mux/all-programs", p)
+						st := e2x.NewStats()
+						st.Tick = r.Alive
+						e2x.Explore(sc, nil, 100, st, 0)
+						if st.Internal != "" {
+							r.Fail("internal/e2/mux/all-programs", "%s: %s", name, st.Internal)
+							return
+						}
+						if serve && write {
+							r.Nontrivial()
+						}
+						r.Count("executions", st.Executions)
+						r.Count("transitions", st.Transitions)
+						r.Count("states", int64(len(st.States)))
+						for _, v := range st.Violations {
+							r.Fail(v.Key+"/e2/mux/all-programs", "program%s\n%s\nchoices: %v\nschedule:\n%s", name, v.Detail, v.Choices, v.Schedule)
+						}
+						r.Sample(func() any {
+							return map[string]any{"program": name, "executions": st.Executions, "outcomes": keys(st.Outcomes)}
+						})
+					})
+					return
+				}
+				var ops func(k int, cur []op)
+				ops = func(k int, cur []op) {
+					if k == shape[ti] {
+						// threads of equal length in non-decreasing order (the program is a multiset of such threads)
+						if ti > 0 && shape[ti-1] == shape[ti] && fmt.Sprint(prog[ti-1]) > fmt.Sprint(cur) {
+							return
+						}
+						gen(shape, ti+1, append(prog, cur))
+						return
+					}
+					for _, o := range alpha {
+						ops(k+1, append(append([]op(nil), cur...), o))
+					}
+				}
+				ops(0, nil)
+			}
+			for _, sh := range shapes {
+				gen(sh, 0, nil)
+			}
+		})
 	_ = bytes.Equal
 }
 
